@@ -1044,6 +1044,12 @@ M("C16.nonempty_fragment_facing_hole_skipped", ["C16"], "core/src/template.rs",
   "(PartKind::Hole { .. }, PartKind::Text { value: ref b }) if b.get().is_empty() => {",
   "(PartKind::Hole { .. }, PartKind::Text { value: ref b }) if !b.get().is_empty() => {", "C16.R1")
 
+# ---- reverse patch of fix bf6d79a (D23: OTLP worker ends with its first receiver) and variants ----------------------------------------
+M("C08.rev_fix_worker_awaits_first_receiver", ["C08", "C12"], "emitter/otlp/src/client.rs",
+  "            let _ = processors.collect::<Vec<()>>().await;", "            let _ = processors.into_future().await;", "R4:workers-run-to-completion")
+M("C08.worker_awaits_next_once", ["C08", "C12"], "emitter/otlp/src/client.rs",
+  "            let _ = processors.collect::<Vec<()>>().await;", "            let mut processors = processors;\n            let _ = processors.next().await;", "R4:workers-run-to-completion")
+
 # ---- round 6 (own probing of the blocking entry points): Trigger, send_or_wait, callbacks ------------------------------------------
 M("C07.wait_zero_timeout_reports_flushed", ["C07"], "batcher/src/sync.rs",
   "            if timeout == Duration::ZERO {\n                return false;", "            if timeout == Duration::ZERO {\n                return true;", "C07.R4:Trigger")
